@@ -13,7 +13,7 @@ from sa import automut  # noqa: E402
 from sa.core import DEFAULT_ROOT, PACKAGE  # noqa: E402
 N = int(sys.argv[1]) if len(sys.argv) > 1 else 60
 STUB = "/verif/tools/janus_stub"
-TABLE_RULES = re.compile(r"^R(7\.1[2-9]|5\.1[4-9]|1\.1[4-9]|1\.2[0-3]|4\.8)$")
+TABLE_RULES = re.compile(r"^R(7\.1[2-9]|7\.20|5\.1[4-9]|5\.2[01]|1\.1[4-9]|1\.2[0-5]|4\.8)$")
 
 
 def run(tree, mode):
@@ -35,6 +35,9 @@ def main():
         for j in automut.generate(prop, DEFAULT_ROOT):
             jobs.setdefault((j[2], j[3], j[4]), []).append(j)
     uniq = [v[0] for v in jobs.values()]
+    only = os.environ.get("FUNC")
+    if only:
+        uniq = [j for j in uniq if j[3].split(":")[-1] in only.split(",")]
     alljobs = [("ALL3",) + j[1:] for j in uniq]
     print("mutants", len(alljobs), flush=True)
     # detection by C01, C05, C07 together
